@@ -738,16 +738,19 @@ func encodeFailures(o *hc.Out, g *hc.Gen, bin, scratch string, thorough bool) {
 			cd := fresh("crash")
 			_, crc := csvq(bin, cd, []string{"VERIF_CRASH_AT=" + spec}, program)
 			o.Eval()
-			if crc == 137 {
-				for i, t := range tabs {
-					if t.created {
-						continue
-					}
-					st, b := stateOf(cd, i)
-					if st != "old" && (refused || st != "new") {
-						o.Law("crash_leaves_old_or_new", map[string]interface{}{"crash_at": spec, "table": t.describe(), "state": st, "program": program, "tables": desc,
-							"offence": s.off.kind, "table_size": s.sz.name, "offending_record": s.pos, "bytes": len(b), "bytes_old": len(t.render()), "dir_after_crash": listDir(cd)})
-					}
+			if crc != 137 {
+				// the tables are encoded in the order of a map: this time the COMMIT was given up before the point
+				// (the run ended by itself — the files are looked at all the same)
+				o.Count("encode_failure_kill_point_not_reached")
+			}
+			for i, t := range tabs {
+				if t.created {
+					continue
+				}
+				st, b := stateOf(cd, i)
+				if st != "old" && (refused || st != "new") {
+					o.Law("crash_leaves_old_or_new", map[string]interface{}{"crash_at": spec, "rc": crc, "table": t.describe(), "state": st, "program": program, "tables": desc,
+						"offence": s.off.kind, "table_size": s.sz.name, "offending_record": s.pos, "bytes": len(b), "bytes_old": len(t.render()), "dir_after_crash": listDir(cd)})
 				}
 			}
 			_ = os.RemoveAll(cd)
